@@ -33,6 +33,8 @@ THEOREMS = [
      "forall (A : Type) (t : tensor A) (idx : list N) (v : A), wf t -> valid (dims t) idx -> exists t', index_mut t idx v = Some t' /\\ wf t' /\\ dims t' = dims t /\\ index t' idx = Some v /\\ forall idx', valid (dims t) idx' -> idx' <> idx -> index t' idx' = index t idx'"),
     ('c19_write_order',
      'forall (A : Type) (t : tensor A), wf t -> write t = Some (render (dims t) (data t)) /\\ elems (render (dims t) (data t)) = data t'),
+    ('c19_debug_order',
+     'forall (A : Type) (t : tensor A), wf t -> debug t = Some (debug_spec (dims t) (data t))'),
     ('c19_wraps_char',
      'forall ds : list N, product ds <> 0 -> forall (m : N) (c : nat), (c <= length ds)%nat -> ((c <= wraps ds m)%nat <-> (product (skipn (length ds - c) ds) | m))'),
     ('c19_odometer_step',
@@ -127,7 +129,7 @@ def parse_obs(c, obs):
         elif k == "s":
             res.append(True)
             at += 1
-        elif k == "w":
+        elif k in ("w", "db"):
             res.append(t[at])
             at += 1
         elif k == "rt":
@@ -187,6 +189,24 @@ def lex(text):
     return "[" + ";".join(toks) + "]"
 
 
+def lex_debug(text):
+    """Debug string (spaces removed) -> Coq dtok list"""
+    toks, cur = [], ""
+    for ch in text + "\0":
+        if ch in "[],\0":
+            if cur:
+                try:
+                    toks.append("DE %s" % zt(int(cur)))
+                except ValueError:
+                    toks.append("DE (-999999999999999)%Z")
+                cur = ""
+            if ch != "\0":
+                toks.append({"[": "DOpen", "]": "DClose", ",": "DComma"}[ch])
+        else:
+            cur += ch
+    return "[" + ";".join(toks) + "]"
+
+
 def coq_term(c, obs, profile):
     ok, res = parse_obs(c, obs)
     ctor = {"V": "FromVec", "S": "FromSlice"}.get(c["ctor"]) or "(New %s)" % zt(c.get("newv", 0))
@@ -206,6 +226,8 @@ def coq_term(c, obs, profile):
                 ops.append("ODims %s" % nl(r))
             elif k == "w":
                 ops.append("OWrite %s" % ("None" if r is None else "(Some %s)" % lex(r)))
+            elif k == "db":
+                ops.append("ODebug %s" % ("None" if r is None else "(Some %s)" % lex_debug(r)))
             elif k == "rt":
                 ops.append("ORoundtrip %s" % ("None" if r is None else
                                               "(Some (%s, %s))" % ("true" if r[0] == "1" else "false", zl(r[1]))))
@@ -302,7 +324,7 @@ def shape_cases(rng, dims):
         ops.append(["g", idx])
     for q, idx in enumerate(oor):
         ops.append(["g" if q % 2 == 0 else "gi", idx])
-    ops += [["w"], ["rt"]]
+    ops += [["w"], ["rt"], ["db"]]
     cases.append({"dims": dims, "ctor": "V", "data": data, "ops": ops})
     # 2. new + IndexMut everywhere (shuffled), out-of-range writes in between
     order = list(valid)
@@ -321,7 +343,7 @@ def shape_cases(rng, dims):
     ops.append(["it"])
     for idx in valid:
         ops.append(["g", idx])
-    ops += [["w"], ["rt"]]
+    ops += [["w"], ["rt"], ["db"]]
     cases.append({"dims": dims, "ctor": "N", "newv": fill, "data": [], "ops": ops})
     # 3. from_slice: equality
     ops = [["eq", dims, list(data)]]
@@ -408,7 +430,7 @@ def generate(rng, tier):
     # rank 0: a single element
     for x in (7, -3, 0):
         cases.append({"dims": [], "ctor": "V", "data": [x],
-                      "ops": [["dm"], ["gi", []], ["g", []], ["it"], ["w"], ["rt"], ["s", [], x + 1], ["g", []], ["w"], ["rt"],
+                      "ops": [["dm"], ["gi", []], ["g", []], ["it"], ["w"], ["rt"], ["db"], ["s", [], x + 1], ["g", []], ["w"], ["rt"], ["db"],
                               ["eq", [], [x + 1]], ["eq", [], [x]], ["eq", [], []], ["rd", [], "5"], ["rd", [], ""],
                               ["rd", [], "/_-12_4"]]})
     cases.append({"dims": [], "ctor": "N", "newv": 11, "data": [], "ops": [["it"], ["g", []], ["w"], ["rt"]]})
